@@ -51,7 +51,8 @@ Proof.
         split; [exact Ho|]. intros xe Hxe. apply in_map_iff in Hxe. destruct Hxe as [ye [<- Hye]].
         apply spec_trials_In in Hye. destruct Hye as [E1 E2].
         unfold lift_sel. cbn [fst snd]. split; [f_equal; exact E1|]. split; [apply Qltb_lt; exact Hp | exact E2].
-      - destruct (Qltb 0 (de_p d)) eqn:Hp; [|split; [apply osame_refl | intros xe []]].
+      - destruct (de_member d (loci s) (world s)); cbn [andb]; [|split; [apply osame_refl | intros xe []]].
+        destruct (Qltb 0 (de_p d)) eqn:Hp; [|split; [apply osame_refl | intros xe []]].
         pose proof (next_rand_osame s) as Ho. destruct (next_rand s) as [r s1]. cbn [fst snd] in *.
         split; [exact Ho|]. intros xe Hxe. destruct (Qle_bool r (de_p d)); [|destruct Hxe].
         destruct Hxe as [<-|[]]. cbn [fst snd]. split; [reflexivity|]. split; [apply Qltb_lt; exact Hp | reflexivity]. }
@@ -179,11 +180,12 @@ Definition dstoch_select (s : st W) : option (trans W * Q * st W) :=
   end.
 
 (* firing, after the posted events ran and the clock was set: a registered event reads its live
-   locus now (Model/Kernel.v); an appended entry is called on its stored value, unconditionally *)
+   locus now (Model/Kernel.v); an appended entry is tested now (`len(l) > 0`): if its membership
+   test holds it is called on its stored value (no rank consumed), otherwise nothing happens *)
 Definition dstoch_fire (x : trans W) (nt : Q) (ev : nat) (s5 : st W) : nat * st W :=
   match x with
   | TStat y => stoch_fire tb y nt ev s5
-  | TDyn pi d => (S ev, fire_dyn D pi d nt s5)
+  | TDyn pi d => if de_member d (loci s5) (world s5) then (S ev, fire_dyn D pi d nt s5) else (ev, s5)
   end.
 
 Lemma dstoch_loop_S : forall pf f t events s,
@@ -211,12 +213,12 @@ Proof.
   destruct (next_rand s) as [r1 s1]. destruct (next_ln s1) as [ln s2].
   destruct (dtransitions D (loci s) (world s)) as [|x0 rest]; [reflexivity|].
   destruct rest as [|x1 rest].
-  - destruct (run_pending tb pf _ 0 s2) as [n s4]. destruct x0 as [y|pi d]; [|reflexivity].
+  - destruct (run_pending tb pf _ 0 s2) as [n s4]. destruct x0 as [y|pi d]; [|destruct (de_member d _ _); reflexivity].
     destruct (locus (set_clock _ s4) (ev_locus (snd y))); [reflexivity|].
     destruct (next_draw _) as [k s6]. reflexivity.
   - destruct (next_rand s2) as [r2 s3].
     destruct (run_pending tb pf _ 0 s3) as [n s4].
-    destruct (select _ _ _ _ _) as [y|pi d]; [|reflexivity].
+    destruct (select _ _ _ _ _) as [y|pi d]; [|destruct (de_member d _ _); reflexivity].
     destruct (locus (set_clock _ s4) _); [reflexivity|].
     destruct (next_draw _) as [k s6]. reflexivity.
 Qed.
@@ -242,10 +244,20 @@ Qed.
 Definition dnonneg (lc : list (list elem)) (w : W) : Prop := forall x, In x (dtransitions D lc w) -> 0 <= trans_p x.
 
 Lemma drate_nonneg s x : 0 <= trans_p x -> 0 <= drate s x.
-Proof. destruct x as [y|pi d]; cbn [trans_p drate]; [apply rate_nonneg | tauto]. Qed.
+Proof.
+  destruct x as [y|pi d]; cbn [trans_p drate]; [apply rate_nonneg|].
+  destruct (de_member d (loci s) (world s)); [tauto | intros _; apply Qle_refl].
+Qed.
 
 Lemma drate_pos s x : 0 < drate s x -> 0 < trans_p x.
-Proof. destruct x as [y|pi d]; cbn [trans_p drate]; [apply rate_pos | tauto]. Qed.
+Proof.
+  destruct x as [y|pi d]; cbn [trans_p drate]; [apply rate_pos|].
+  destruct (de_member d (loci s) (world s)); [tauto | intros H; exfalso; exact (Qlt_irrefl 0 H)].
+Qed.
+
+(* an appended entry with a positive rate passes its membership test in the state the rates are computed from *)
+Lemma drate_pos_member s pi d : 0 < drate s (TDyn pi d) -> de_member d (loci s) (world s) = true.
+Proof. cbn [drate]. destruct (de_member d (loci s) (world s)); [reflexivity | intros H; exfalso; exact (Qlt_irrefl 0 H)]. Qed.
 
 (* the entry chosen has a positive rate, hence a positive probability: zero-probability entries are never selected *)
 Lemma dstoch_select_pos s x dt s3 : dnonneg (loci s) (world s) -> Forall unit_rand (rands s) ->
@@ -283,6 +295,15 @@ Proof.
       apply Qmult_lt_compat_r; assumption.
     + split; [exact Hp | exact (drate_pos s _ Hp)].
 Qed.
+
+(* the stale entry of a Gillespie iteration: nothing is called, recorded or counted, no rank is consumed *)
+Lemma dstoch_fire_stale pi d nt ev s5 : de_member d (loci s5) (world s5) = false ->
+  dstoch_fire (TDyn pi d) nt ev s5 = (ev, s5).
+Proof. intros H. cbn [dstoch_fire]. rewrite H. reflexivity. Qed.
+
+Lemma dstoch_fire_live pi d nt ev s5 : de_member d (loci s5) (world s5) = true ->
+  dstoch_fire (TDyn pi d) nt ev s5 = (S ev, fire_dyn D pi d nt s5).
+Proof. intros H. cbn [dstoch_fire]. rewrite H. reflexivity. Qed.
 
 (* ------------------------------------------------------------------ one synchronous timestep *)
 Definition dsync_step (pf : nat) (t : Q) (s : st W) : nat * st W :=
@@ -430,6 +451,8 @@ Proof.
     cbv zeta in I1, I2, I3. split; [exact I1|]. split; [rewrite I2, P1; reflexivity | rewrite I3, P2; reflexivity].
 Qed.
 
+End Queue.
+
 (* ------------------------------------------------------------------ the Gillespie loop as a run *)
 Section StochGen.
 (* IR: an invariant of the stream of uniform variates; Xtr: the fact established at each selection *)
@@ -439,13 +462,11 @@ Hypothesis IR_skipn : forall n l, IR l -> IR (skipn n l).
 Hypothesis Hsel : forall s x dt s3, IR (rands s) ->
   Qeq_bool (dsum_rates s (dtransitions D (loci s) (world s))) 0 = false ->
   dstoch_select s = Some (x, dt, s3) -> Xtr x.
-(* an entry passes its own membership test in the state it is generated from *)
-Hypothesis Hsound : forall pi lc w d, In d (d_dyn D pi lc w) -> de_member d lc w = true.
 
 Lemma dstoch_loop_dsteps : forall pf fuel t ev s t' ev' s', dstoch_loop D pf fuel t ev s = (t', ev', s') ->
-  forall s0 cs, DSteps D Xtr s0 cs s -> qinv s -> IR (rands s) -> exists cs', DSteps D Xtr s0 (cs ++ cs') s'.
+  forall s0 cs, DSteps D Xtr s0 cs s -> IR (rands s) -> exists cs', DSteps D Xtr s0 (cs ++ cs') s'.
 Proof.
-  intros pf. induction fuel as [|f IH]; intros t ev s t' ev' s' E s0 cs H Hq Hr.
+  intros pf. induction fuel as [|f IH]; intros t ev s t' ev' s' E s0 cs H Hr.
   - cbn [dstoch_loop] in E. inversion E; subst. exists []. rewrite app_nil_r.
     eapply dst_sched; [exact H | apply dsched_set_stuck].
   - rewrite dstoch_loop_S in E. destruct (at_equil tb t s).
@@ -453,34 +474,29 @@ Proof.
     destruct (Qeq_bool (dsum_rates s (dtransitions D (loci s) (world s))) 0) eqn:Ha.
     + unfold next_pending_time in E.
       assert (Hd : DSteps D Xtr s0 cs (discard s)) by (eapply dst_sched; [exact H | apply dsched_discard]).
-      assert (Hqd : qinv (discard s)) by (apply (qinv_incl s); [unfold discard; cbn [queue set_queue]; apply discard_dead_incl | exact Hq]).
       destruct (head (queue (discard s))) as [h|]; cbn [option_map] in E.
-      * destruct (run_pending_inert pf (e_time h) 0%nat (discard s) Hqd) as (I1 & _ & _).
-        destruct (run_pending_spec tb pf (e_time h) 0%nat (discard s)) as [[O1 _] _].
+      * destruct (run_pending_spec tb pf (e_time h) 0%nat (discard s)) as [[O1 _] _].
         destruct (run_pending tb pf (e_time h) 0 (discard s)) as [n s''] eqn:Ep. cbn [snd] in *.
         destruct (run_pending_dsteps D Xtr _ _ _ _ _ _ Ep _ _ Hd) as [c1 [H1 _]].
-        destruct (IH _ _ _ _ _ _ E _ _ H1 I1) as [c2 H2]; [rewrite O1; exact Hr|].
+        destruct (IH _ _ _ _ _ _ E _ _ H1) as [c2 H2]; [rewrite O1; exact Hr|].
         exists (c1 ++ c2). rewrite app_assoc. exact H2.
       * inversion E; subst. exists []. rewrite app_nil_r. exact Hd.
     + destruct (dstoch_select s) as [[[x dt] s3]|] eqn:Es.
       * pose proof (Hsel s x dt s3 Hr Ha Es) as HX.
         destruct (dstoch_select_shape s x dt s3 Es) as [Hx [nr [_ ->]]]. cbv zeta in E.
         assert (H3 : DSteps D Xtr s0 cs (advance nr 1 0 s)) by (eapply dst_sched; [exact H | apply dsched_advance]).
-        assert (Hq3 : qinv (advance nr 1 0 s)) by exact Hq.
-        destruct (run_pending_inert pf (Qred (t + dt)) 0%nat (advance nr 1 0 s) Hq3) as (I1 & I2 & I3).
         destruct (run_pending_spec tb pf (Qred (t + dt)) 0%nat (advance nr 1 0 s)) as [[O1 _] _].
         destruct (run_pending tb pf (Qred (t + dt)) 0 (advance nr 1 0 s)) as [n s4] eqn:Ep. cbn [snd] in *.
         destruct (run_pending_dsteps D Xtr _ _ _ _ _ _ Ep _ _ H3) as [c1 [H1 _]].
         assert (H5 : DSteps D Xtr s0 (cs ++ c1) (set_clock (Qred (t + dt)) s4)) by (eapply dst_sched; [exact H1 | apply dsched_set_clock]).
         set (s5 := set_clock (Qred (t + dt)) s4) in *.
-        assert (Hq5 : qinv s5) by exact I1.
         assert (Hr5 : IR (rands s5)).
         { change (rands s5) with (rands s4). rewrite O1. cbn [advance rands]. apply IR_skipn. exact Hr. }
+        apply dtransitions_In in Hx.
         destruct x as [y|pi d]; cbn [dstoch_fire] in E.
-        -- apply dtransitions_In in Hx.
-           destruct (locus s5 (ev_locus (snd y))) as [|e0 l0] eqn:El.
+        -- destruct (locus s5 (ev_locus (snd y))) as [|e0 l0] eqn:El.
            ++ rewrite (stoch_fire_empty tb y _ _ s5 El) in E.
-              destruct (IH _ _ _ _ _ _ E _ _ H5 Hq5 Hr5) as [c2 H2]. exists (c1 ++ c2). rewrite app_assoc. exact H2.
+              destruct (IH _ _ _ _ _ _ E _ _ H5 Hr5) as [c2 H2]. exists (c1 ++ c2). rewrite app_assoc. exact H2.
            ++ assert (Hne : locus s5 (ev_locus (snd y)) <> []) by (rewrite El; discriminate).
               destruct (stoch_fire_member tb y (Qred (t + dt)) (ev + n) s5 Hne) as [e [He Ef]]. rewrite Ef in E.
               assert (H6 : DSteps D Xtr s0 (cs ++ c1) (advance 0 0 1 s5)) by (eapply dst_sched; [exact H5 | apply dsched_advance]).
@@ -489,23 +505,19 @@ Proof.
               { apply dst_call; [exact H6|]. split; [exact Hx|]. split; [apply mem_In; exact He|]. split; [reflexivity | exact HX]. }
               cbn [dafter] in H7.
               destruct (IH _ _ _ _ _ _ E _ _ H7) as [c2 H2].
-              { apply fire_event_qinv. exact Hq5. }
               { destruct y as [[pi j] evt]. destruct (fire_event_spec tb pi j evt (Qred (t + dt)) e (advance 0 0 1 s5)) as [(_ & F2 & _) _].
                 rewrite F2. exact Hr5. }
               exists (c1 ++ (advance 0 0 1 s5, DEv y (Qred (t + dt)) e) :: c2).
               rewrite <- !app_assoc in H2. exact H2.
-        -- apply dtransitions_In in Hx.
-           assert (H7 : DSteps D Xtr s0 ((cs ++ c1) ++ [(s5, DDyn pi d (Qred (t + dt)))]) (dafter D (DDyn pi d (Qred (t + dt))) s5)).
-           { apply dst_call; [exact H5|]. split; [exists (loci s), (world s); exact Hx|].
-             split; [|split; [reflexivity | exact HX]].
-             change (loci s5) with (loci s4). change (world s5) with (world s4). rewrite I2, I3.
-             apply Hsound with (pi := pi). exact Hx. }
-           cbn [dafter] in H7.
-           destruct (IH _ _ _ _ _ _ E _ _ H7) as [c2 H2].
-           { apply fire_dyn_qinv. exact Hq5. }
-           { rewrite fire_dyn_rands. exact Hr5. }
-           exists (c1 ++ (s5, DDyn pi d (Qred (t + dt))) :: c2).
-           rewrite <- !app_assoc in H2. exact H2.
+        -- destruct (de_member d (loci s5) (world s5)) eqn:Em.
+           ++ assert (H7 : DSteps D Xtr s0 ((cs ++ c1) ++ [(s5, DDyn pi d (Qred (t + dt)))]) (dafter D (DDyn pi d (Qred (t + dt))) s5)).
+              { apply dst_call; [exact H5|]. split; [exists (loci s), (world s); exact Hx|].
+                split; [exact Em|]. split; [reflexivity | exact HX]. }
+              cbn [dafter] in H7.
+              destruct (IH _ _ _ _ _ _ E _ _ H7) as [c2 H2]; [rewrite fire_dyn_rands; exact Hr5|].
+              exists (c1 ++ (s5, DDyn pi d (Qred (t + dt))) :: c2).
+              rewrite <- !app_assoc in H2. exact H2.
+           ++ destruct (IH _ _ _ _ _ _ E _ _ H5 Hr5) as [c2 H2]. exists (c1 ++ c2). rewrite app_assoc. exact H2.
       * inversion E; subst. exists []. rewrite app_nil_r. eapply dst_sched; [exact H | apply dsched_set_stuck].
 Qed.
 
@@ -515,13 +527,11 @@ Proof.
   intros Hr. unfold dstoch_run.
   destruct (dstoch_loop D pf fuel 0 0 (setup_state tb rs ls ds)) as [[t ev] s] eqn:E. cbn [r_final].
   destruct (dstoch_loop_dsteps _ _ _ _ _ _ _ _ E _ [] (dst_refl D Xtr _)) as [cs H].
-  - apply setup_qinv.
   - rewrite (proj2 (setup_state_out tb rs ls ds)). exact Hr.
   - exists cs. exact H.
 Qed.
 
 End StochGen.
-End Queue.
 
 (* ------------------------------------------------------------------ the synchronous loop as a run *)
 Definition Xpos (x : trans W) : Prop := 0 < trans_p x.
